@@ -19,6 +19,11 @@ CLAIMED = {
         "level": "Every binary image on Cartesian grids of 6, 10, 3x3, 3x4, 2x2x3 cells (thorough: up to 14, 4x4, 2x3x3) for every periodicity mask and on cylindrical grids up to 2x5 (thorough 4x4) for both periodic_z, plus generated masks (noise, wrapped boxes, persistent walks) on grids up to 40/16^2/8^3; volume, unwrapped centre of mass, sphere non-overlap and justification of omissions.",
         "note": "Positions of winding components are not judged; one open known finding (winding on-axis component on periodic cylindrical grids) is excluded by signature and counted.",
     },
+    "C03": {
+        "technique": _T + "; independent minimal-image geometry oracle, inside/outside equivalence, metamorphic roll equivariance, emulsion = clipped sum under permutation",
+        "level": "Generated droplets of all five classes on every compatible grid family (generic and dyadic Cartesian 1-3 D with all periodicity masks, polar, spherical, cylindrical), widths None/0/positive, arbitrary level pairs, centres on cell centres/faces/outside the box; finiteness, range, midpoint equivalence, exact indicator, monotonic decay, roll equivariance, emulsion clause.",
+        "note": "The droplet's own interface_distance defines the shape (C13 checks it); knife-edge and ambiguous-image cells excluded and counted; exact 1-D dyadic cases judged without tolerance.",
+    },
     "C06": {
         "technique": "exhaustive enumeration of lattice histories + Hypothesis-generated time courses; invariant over the history (multiset partition, input snapshot)",
         "level": "All 3-frame histories over every subset of a 4-site (thorough 5-site) 1-D lattice x methods x cut-offs x {no grid, periodic}; generated time courses of 0-6 (10) frames, any droplet class, dims 1-3, three placement modes, all cut-offs; partition invariant, gap-free/at-most-once under the stated premise, input unmodified.",
